@@ -23,6 +23,10 @@ def run(ctx, rep):
     rep.configs.append("default")
     for impl in ("mapper", "cache"):
         TR.check_typed(fx, rep, "C08.1", impl)
+    # premise of "every element is remapped or unchanged": what remap_throwable answers (remap_class on the class, the message
+    # passed through untouched, None iff the class is unknown), in both implementations
+    import lookup_rules as LR
+    LR.check_class_lookup(fx, rep, "C08.T")
     TR.check_display_templates(fx, rep, "C08.4")
     TR.check_format_helpers(fx, rep, "C08.4")
     TR.check_element_display(fx, rep, "C08.4")
